@@ -68,3 +68,18 @@ Theorem engine_on_a_plain_document_is_the_union_over_its_parts : forall cfg fe s
   forall x, In x l12 <-> In x l1 \/ In x l2.
 Proof. exact engine_plain_document_is_union_of_parts. Qed.
 Print Assumptions engine_on_a_plain_document_is_the_union_over_its_parts.
+
+(* FOR EVERY DOCUMENT (referencing object maps, quoted triples maps of any depth, function executions): the generation rules give the same
+   statements however the triples maps of a document with distinct identifiers are ordered; and every statement of a part is a statement of
+   the whole (`_partial`: the converse inclusion -- the whole has nothing beyond its CLOSED parts -- is proved for plain documents above and
+   for the engine's rule tables (`document_is_union_of_parts_partial`); for arbitrary nesting it needs a bound on the nesting fuel that is not proved) *)
+From Coq Require Import Permutation.
+From Morph Require Import Proofs.DocOrderP.
+Theorem triples_map_order_is_irrelevant : forall scfg fe tables d d', Permutation d d' -> NoDup (map t_id d) ->
+  forall x, In x (spec_lines scfg fe d tables) <-> In x (spec_lines scfg fe d' tables).
+Proof. exact document_order_irrelevant. Qed.
+Print Assumptions triples_map_order_is_irrelevant.
+Theorem every_part_is_included_in_the_whole_partial : forall scfg fe tables d1 d2, NoDup (map t_id (d1 ++ d2)) ->
+  forall x, In x (spec_lines scfg fe d1 tables) \/ In x (spec_lines scfg fe d2 tables) -> In x (spec_lines scfg fe (d1 ++ d2) tables).
+Proof. exact parts_are_included_in_the_whole. Qed.
+Print Assumptions every_part_is_included_in_the_whole_partial.
